@@ -468,9 +468,10 @@ Fixpoint forallb2 {A B} (f : A -> B -> bool) (l : list A) (m : list B) : bool :=
   end.
 Fixpoint qsortedb (l : list Q) : bool :=
   match l with a :: ((b :: _) as r) => Qle_bool a b && qsortedb r | _ => true end.
-(* which entries of the recorded arrays are cut points: the sequence path with n > 2 asks for the 0th percentile first *)
-Definition used_part {A} (n : Z) (p : pspec) (l : list A) : list A :=
-  match p with PList _ => if 2 <? n then tl l else l | PScalar _ => l end.
+(* which entries of the recorded arrays are cut points: the code may ask np.percentile for one extra leading level (the
+   sequence path with n > 2 asks for the 0th percentile first and does not use it); the arrays are aligned by length *)
+Definition used_part {A} (k : nat) (l : list A) : list A :=
+  if Nat.eqb (length l) (S k) then tl l else l.
 
 (* scalar p with n > 2.  honour = false: the code as first read ignores it (uniform 100/n steps).
    honour = true (proposed repair): p = 1/2 (the default) keeps the uniform split, any other p gives class 0 the
@@ -487,8 +488,8 @@ Definition requested_percents (honour : bool) (n : Z) (p : pspec) : option (list
 Definition gen_labels_o (honour : bool) (d : list Z) (n : Z) (p : pspec) (rperc rcuts : list Q) : res (list Z) :=
   match d, requested_percents honour n p with
   | _ :: _, Some req =>
-    let rp := used_part n (if honour then match p with PScalar q => if (2 <? n) && negb (Qeq_bool q (1 # 2)) then PList [] else p | _ => p end else p) rperc in
-    let rc := used_part n (if honour then match p with PScalar q => if (2 <? n) && negb (Qeq_bool q (1 # 2)) then PList [] else p | _ => p end else p) rcuts in
+    let rp := used_part (length req) rperc in
+    let rc := used_part (length req) rcuts in
     if forallb2 qclose rp req && forallb2 (cut_ok (sort d)) rp rc && (negb (qsortedb req) || qsortedb rc)
     then Ok (labels_of d rc) else BadOracle
   | _, _ => Raises
@@ -524,6 +525,18 @@ Definition downsample_check (X : mat) (y : list Z) (n : option Z) (Xd : mat) (yd
     forallb (fun lab => memZ lab (uniq y)) yd &&
     forallb (fun ry => existsb (fun ry' => list_eqb (fst ry) (fst ry') && (snd ry =? snd ry')) (combine X y)) (combine Xd yd)
   end.
+
+(* property-level validator for labels when np.percentile was not observed: the labels are a monotone step function of the
+   decision value with values 0..#cuts and, on tie-free data, classes 0..m hold floor((N-1) req_m/100) + 1 items give or take
+   one (what double rounding of the virtual index can change) *)
+Definition labels_valid (d : list Z) (req : list Q) (y : list Z) : bool :=
+  (length y =? length d)%nat &&
+  forallb (fun a => forallb (fun b => negb (fst a <=? fst b) || (snd a <=? snd b)) (combine d y)) (combine d y) &&
+  forallb (fun yi => (0 <=? yi) && (yi <=? lenZ req)) y &&
+  (negb (nodupb d) ||
+   forallb (fun m => let cnt := lenZ (filter (fun yi => yi <=? Z.of_nat m) y) in
+                     let j := Qfloor (inject_Z (lenZ d - 1) * (nth m req 0%Q / 100)) in
+                     (j <=? cnt) && (cnt <=? j + 2)) (seq 0 (length req))).
 
 (* labels: monotone step function of the decision value, values 0..#cuts *)
 Definition labels_check (d : list Z) (cuts : list Q) (y : list Z) : bool :=
